@@ -52,7 +52,7 @@ def cost_series(scen, x, npre, ntest, ncool, seed):
         ct[npre:npre + ntest] = 400.0
     elif scen == 'treatment-pre-cost-only':        # only the treatment group ever spent: non-zero pre-period cost => variable
         cc = np.zeros(n)
-        ct = 16.0 + 4 * np.array(frames.lcg_noise(seed + 89, n, 0, 3), float)
+        ct = 16.0 + 4 * np.array(frames.lcg_noise(seed + 90, n, 0, 3), float)
         ct[npre:npre + ntest] += 400.0
     elif scen == 'control-test-cost-only':         # control spends only in the test period => variable
         cc = np.zeros(n)
